@@ -88,6 +88,15 @@ pub fn op_ref(n: usize, msg: &[u8]) -> String {
 /// `interop_export N keyseed msg`: our secret key bytes imported by the reference, which signs; we verify
 pub fn op_export(n: usize, keyseed: &[u8], msg: &[u8]) -> String {
     let k = keygen_info(n, keyseed);
+    // what is exported must also be readable here (the reference accepts it, see below)
+    let back_ok = if n == 512 {
+        falcon_rust::falcon512::SecretKey::from_bytes(&k.sk_bytes).is_ok()
+    } else {
+        falcon_rust::falcon1024::SecretKey::from_bytes(&k.sk_bytes).is_ok()
+    };
+    if !back_ok {
+        return "our-decoder-rejects-the-exported-key".into();
+    }
     let sig = if n == 512 {
         use pqcrypto_falcon::falcon512 as r;
         match r::SecretKey::from_bytes(&k.sk_bytes) {
@@ -146,7 +155,7 @@ pub fn generate(tier: &str, rng: &mut Prng) -> Vec<Case> {
         }
         // keys with a rare algebraic feature (the NTT slots of f multiply to 1; the top / constant coefficient of h is 0):
         // signatures and encodings made here go to the reference, and the exported key comes back
-        for kind in ["f_product_one", "h_top_zero", "h_const_zero"] {
+        for kind in ["f_product_one", "h_top_zero", "h_const_zero", "g_ntt_zero"] {
             for ks in crate::seeds::special(n, tier, kind, 1) {
                 let msg = rng.bytes(12);
                 ops.push(Case::new(format!("interop_ours {n} {} {} {}", hex(&ks), hex(&msg), rng.next() >> 1)));
